@@ -452,7 +452,7 @@ impl Check for SCheck {
         )
     }
     fn rule(&self) -> String {
-        self.rule.to_string()
+        format!("{} | history generator: ordinary runs hold <= 12 resting orders and <= 40 operations; about 1 run in 32 is a big book (17-260 orders pre-loaded), 1 in 32 a long history (150-1000 operations on 2-5 orders, half of them with a row of 33-1030 orders added and cancelled at once, 1 in 800 of those a 66 000-pair marathon of add+cancel or add+match); ids are small integers, random bits or a corner pool (nil, all ones, equal low / high halves, the same bits as UUID and as ULID); the taker id is sometimes a resting maker's; level price from {{0, 1, 2, 3, 7, 100, 10^4, 2^32}}", self.rule)
     }
     fn assumptions(&self) -> Vec<String> {
         vec![
@@ -742,7 +742,7 @@ pub fn make(prop: &str) -> Option<SCheck> {
             twin: false,
             quick: 1_500_000,
             thorough: 30_000_000,
-            rule: "engine S histories with zero quantities enabled (display 0 at add, amend to 0, replenish amount 0); every match runs under a step budget of 64 x (model visit bound + resting orders + 8) instrumented operations; non-trivial = the history put a zero-display order on the book",
+            rule: "engine S histories with zero quantities enabled (display 0 at add, amend to 0, replenish amount 0); every match runs under a step budget of 64 x (model visit bound + resting orders + 8) + 8 x (tickets issued so far) instrumented operations; non-trivial = the history put a zero-display order on the book",
         },
         "C07" => SCheck {
             prop: "C07",
